@@ -215,6 +215,12 @@ class Path(parent.Geometry):
         if values is None:
             self._entities = np.array([])
         else:
+            if any(isinstance(v, dict) for v in values):
+                # the result of `Path.export(file_type="dict")` is documented
+                # as kwargs for this constructor so build its entities
+                from .exchange.misc import dict_to_path
+
+                values = dict_to_path({"entities": values})["entities"]
             self._entities = np.asanyarray(values)
 
     @property
